@@ -53,6 +53,7 @@ type Term struct {
 	CV    uint64   // BV const (w<=64) or bool (0/1) or float bits
 	CBig  *big.Int // BV const (w>64), non-negative
 	HasFP bool
+	HasDiv bool
 	Depth int
 }
 
@@ -85,7 +86,18 @@ func (f *TermFactory) mk(t *Term) *Term {
 		return o
 	}
 	t.ID = len(f.all)
+	switch t.Op {
+	case "bvudiv", "bvurem", "bvsdiv", "bvsrem":
+		t.HasDiv = true
+	case "bvmul":
+		if !t.Args[0].Const && !t.Args[1].Const || t.S.W > 32 {
+			t.HasDiv = true
+		}
+	}
 	for _, a := range t.Args {
+		if a.HasDiv {
+			t.HasDiv = true
+		}
 		if a.HasFP {
 			t.HasFP = true
 		}
@@ -379,6 +391,26 @@ func Eq(a, b *Term) *Term {
 		return Ite(b.Args[0], Eq(b.Args[1], a), Eq(b.Args[2], a))
 	}
 	if a.S.K == KBV {
+		// (x + c1) == (x + c2)  <=>  c1 == c2 ;  (x + c) == x  <=>  c == 0
+		{
+			ax, ac := a, (*Term)(nil)
+			if a.Op == "bvadd" && a.Args[1].Const {
+				ax, ac = a.Args[0], a.Args[1]
+			}
+			bx, bc := b, (*Term)(nil)
+			if b.Op == "bvadd" && b.Args[1].Const {
+				bx, bc = b.Args[0], b.Args[1]
+			}
+			if ax == bx && (ac != nil || bc != nil) {
+				if ac == nil {
+					ac = BVConst(a.S.W, 0)
+				}
+				if bc == nil {
+					bc = BVConst(a.S.W, 0)
+				}
+				return Eq(ac, bc)
+			}
+		}
 		if na, nb, _, ok := narrowPair(a, b, 0); ok {
 			return Eq(na, nb)
 		}
